@@ -301,6 +301,33 @@ def check_type_probes():
         if not ok:
             out.append(('rejects-valid/sysex-data', {'typeprobe': ['append', repr(good)]},
                         'appending %r to sysex data failed (%s)' % (good, core.srepr(m))))
+    # what the read-only views hand out belongs to the caller: changing it must not reach the message
+    for mk_ in (lambda: mido.Message('note_on', note=5), lambda: mido.Message('sysex', data=(1, 2)),
+                lambda: mido.Message('clock'), lambda: mido.Message('pitchwheel', pitch=-3)):
+        m = mk_()
+        before = (m.type, dict(vars(m)) if False else {k: (tuple(v) if k == 'data' else v) for k, v in vars(m).items()})
+        for view in ('dict', 'bytes', 'bin'):
+            try:
+                d = getattr(m, view)()
+                if view == 'dict':
+                    for k in list(d):
+                        d[k] = 99999
+                    d['zzz'] = 1
+                    d.pop('time', None)
+                    d.pop('note', None)
+                    if isinstance(mk_().dict().get('data'), list):
+                        mk_().dict()['data'].append(300)
+                else:
+                    for i in range(len(d)):
+                        d[i] = 255
+                    d.append(300) if view == 'bytes' else None
+            except Exception:
+                pass
+            now = (m.type, {k: (tuple(v) if k == 'data' else v) for k, v in vars(m).items()})
+            if now != before or not (m == mk_()):
+                out.append(('changed-through-view/%s' % view, {'typeprobe': ['view', view]},
+                            'changing the result of %s() changed the message to %s' % (view, core.srepr(vars(m)))))
+                break
     m = mido.Message('note_on')
     for bt in (0x90, 'note_off', None):
         try:
